@@ -208,6 +208,34 @@ def s11(first):
     return "S11-stale-%s-then-other-reader" % first, src
 
 
+def s12():
+    """request/reply: the reply channel travels through the request channel, the worker answers on it,
+    forgets it and collects twice; the requester keeps using its own reference afterwards"""
+    src = HEADER.format(mk=MSG["num"]) + """
+(def req (ev/thread-chan 1)) (def done (ev/thread-chan 1))
+(ev/thread (fn [[req done]]
+             (for i 0 2
+               (def [reply x] (ev/take req))
+               (ev/give reply [:result x])
+               (gccollect) (gccollect))
+             (ev/give done true))
+           [req done] :n)
+(def out @[])
+(for i 0 2
+  (def reply (ev/thread-chan 1))
+  (ev/give req [reply i])
+  (array/push out (ev/take reply))
+  (gccollect)
+  # the requester's reference must still be valid after the worker dropped its own
+  (ev/give reply :again) (array/push out (ev/take reply)))
+(ev/take done)
+(gccollect)
+(print "got " (show out))
+(os/exit 0)
+"""
+    return "S12-reply-channel-dropped-by-worker", src
+
+
 def parse_j(text):
     return text
 
@@ -271,6 +299,9 @@ def oracle(name, out):
             return ("thread-call-returned-early", "got %s" % got)
     elif name.startswith("S9"):
         if got != ":through-inner":
+            return ("wrong-delivery", "got %s" % got)
+    elif name.startswith("S12"):
+        if got != "@[[:result 0] :again [:result 1] :again]":
             return ("wrong-delivery", "got %s" % got)
     elif name.startswith("S11"):
         want = "@[[:first :timed-out] [:second 777]]" if "stale-select" in name else "@[[:first :timed-out] [:second [:take 777]]]"
@@ -439,7 +470,7 @@ def main():
         scen = []
         if chk.quick:
             scen += [s1(2, 0, "num"), s1(2, 1, "tab"), s2(1, 0), s3(1, 0), s4(), s5("reader"), s5("writer"), s6(),
-                     s7("returns"), s8(), s9(), s10(), s11("select"), s11("take")]
+                     s7("returns"), s8(), s9(), s10(), s11("select"), s11("take"), s12()]
             plan = {"bound": 2, "max_exec": 2500}
         else:
             for k in (1, 2, 3):
@@ -447,7 +478,7 @@ def main():
                     scen.append(s1(k, cap, "num"))
             scen += [s1(2, 1, "str"), s1(2, 0, "tup"), s1(2, 1, "tab"), s2(1, 0), s2(2, 1), s3(2, 0), s3(2, 1), s4(),
                      s5("reader"), s5("writer"), s6(), s7("returns"), s7("errors"), s8(), s9(), s10(),
-                     s11("select"), s11("take")]
+                     s11("select"), s11("take"), s12()]
             plan = {"bound": 2, "max_exec": 40000}
         only = chk.args.only
         if only:
@@ -468,7 +499,7 @@ def main():
                 continue
             n, outcomes, done = explore(chk, "asan", name, src, 0 if chk.quick else 1, tmpdir, 300 if chk.quick else 3000)
             chk.part("asan/" + name, executions=n, preemption_bound_completed=done)
-        if not chk.quick and not chk.out_of_time(0.97):
+        if not chk.out_of_time(0.97):
             tsan_pass(chk, scen, tmpdir)
         chk.sample({"scenario": scen[0][0], "source": scen[0][1]})
         chk.cov["bound_completed"] = "preemption bound %d (see parts for per-scenario completion)" % plan["bound"]
